@@ -20,6 +20,7 @@ import WinterProofs.C16
 import WinterProofs.Lemmas.C02Valid
 import WinterProofs.Lemmas.C02Seed
 import WinterProofs.Lemmas.C02Transcript
+import WinterProofs.Lemmas.C03Toy
 
 set_option linter.unusedSectionVars false
 
@@ -274,6 +275,33 @@ theorem statement_binding {S : Type} (W1 W2 : Verifier C D V) (L1 : CoinLaws W1.
   rw [transcript L1 hg1 h1, transcript L2 hg2 h2, ← hh, ← hm] at hs
   have := chain_inj L1.h L1.merge hinj minj hdisj _ _ _ _ hs
   exact ⟨this.1, this.2⟩
+
+/-- the toy coin of the accepted instance (Lemmas/C03Toy.lean) satisfies the coin laws, with a collision-free
+    "hash" (the state records the seed elements and every absorbed digest) -/
+def toyLaws (b : Bool) : CoinLaws (C03L.toyVerifier b).coin (List Nat × List C10.T) where
+  seedOf := id
+  h s := (s, [])
+  merge c d := (c.1, c.2 ++ [d])
+  new_seed _ := rfl
+  reseed_seed _ _ := rfl
+  draw_seed c v c' h := by
+    simp only [C03L.toyVerifier, C03L.toyCoin, Option.some.injEq, Prod.mk.injEq] at h
+    exact h.2.symm
+
+-- `statement_binding` on the accepted instance (two nonces: same seed and the same absorbed digests)
+example := statement_binding (C03L.toyVerifier true) (C03L.toyVerifier true) (toyLaws true) (toyLaws true) rfl rfl
+  (by intro a b h; simpa [toyLaws] using h)
+  (by
+    intro s d s' d' h
+    simp only [toyLaws, Prod.mk.injEq] at h
+    obtain ⟨h1, h2⟩ := h
+    have := List.append_inj' h2 rfl
+    exact ⟨Prod.ext h1 this.1, by simpa using this.2⟩)
+  (by intro a s d h; simp [toyLaws] at h)
+  C03L.toyCtx C03L.toyCtx (by intro g c lag c' h; simp [C03L.toyVerifier, C03L.toyAir] at h)
+  (by intro g c lag c' h; simp [C03L.toyVerifier, C03L.toyAir] at h)
+  (C03L.toyCommitted 0) (C03L.toyCommitted 1) _ _ (C03L.toy_challenges true 0) (C03L.toy_challenges true 1) rfl
+
 
 /-- equal seeds of two statements over the same field with the same metadata mean equal contexts and equal
     public-input elements -/
